@@ -9,7 +9,9 @@ import json, os, sys, time, re, subprocess, shutil, hashlib
 
 VERIF = os.path.dirname(os.path.dirname(os.path.abspath(__file__)))
 REPO = os.environ.get("VPV_REPO", "/repo")
-EVID = os.path.join(VERIF, "evidence")
+# development aid: with VPV_REPO pointing at a scratch copy (seeded-change experiments) evidence goes to a side directory, so that
+# /verif/evidence only ever describes runs against /repo itself
+EVID = os.path.join(VERIF, "evidence") if REPO == "/repo" else os.path.join("/var/tmp", "vpv-evidence-alt")
 REPLAYS = os.path.join(VERIF, "replays")
 KNOWN = os.path.join(VERIF, "known_findings.json")
 SCRATCH_ROOT = os.environ.get("VPV_SCRATCH_ROOT", "/var/tmp")
